@@ -10,6 +10,7 @@ import (
 	"context"
 	"errors"
 	"fmt"
+	"github.com/c2FmZQ/ech/dns"
 	"math/rand"
 	"net"
 	"os"
@@ -286,6 +287,9 @@ func TestCacheConcurrent(t *testing.T) {
 			z.typ = []int{tHTTPS, tA, tAAAA}[round%3]
 		}
 		w.Write(Ev{"e": "reset", "scen": Ev{"ttls": tts, "G": G, "typ": z.typ}, "round": round})
+		shared := ech.ResolveResult{Port: 443, Address: []net.IP{net.ParseIP("192.0.2.1").To4(), net.ParseIP("2001:db8::1")},
+			HTTPS: []dns.HTTPS{{Priority: 1, ALPN: []string{"h2"}, ECH: []byte{1}}, {Priority: 2, Port: 8443, ALPN: []string{"h3"}}}}
+		sharedSeq := shared.Targets("tcp")
 		for phase := 0; phase < 5; phase++ {
 			// environment steps only at barriers
 			switch r.Intn(4) {
@@ -346,6 +350,14 @@ func TestCacheConcurrent(t *testing.T) {
 					}
 					for tg := range rr.Targets("tcp4") {
 						n += len(tg.ALPN)
+					}
+					// one sequence value handed to several goroutines (a retry loop, a fan-out): ranging over it is reading
+					m := 0
+					for range sharedSeq {
+						m++
+					}
+					if m != 4 {
+						log(Ev{"e": "crash", "msg": fmt.Sprintf("a target sequence ranged over by several goroutines yielded %d of its 4 targets", m)})
 					}
 					_ = net.IP(nil)
 					log(Ev{"e": "end", "g": g, "k": "n1", "kind": "ok", "gen": genOf(rr, z.typ)})
@@ -419,13 +431,24 @@ func TestCacheParked(t *testing.T) {
 						w.Write(Ev{"e": "reset", "scen": Ev{"ttls": tts, "G": 2, "typ": z.typ}, "round": round})
 						round++
 						var lookup func(g int)
+						var cancelParked context.CancelFunc
+						var cmu sync.Mutex
 						lookup = func(g int) {
 							log(Ev{"e": "start", "g": g, "k": "n1"})
 							ctx, cancel := context.WithTimeout(context.Background(), 10*time.Second)
+							if g == 2 {
+								cmu.Lock()
+								cancelParked = cancel
+								cmu.Unlock()
+							}
 							rr, err := res.Resolve(ctx, "n1.example")
 							cancel()
 							if err != nil {
-								log(Ev{"e": "end", "g": g, "k": "n1", "kind": "err", "gen": -1})
+								kind := "err"
+								if errors.Is(err, context.Canceled) || errors.Is(err, context.DeadlineExceeded) {
+									kind = "timeout" // the caller gave up: says nothing about the data
+								}
+								log(Ev{"e": "end", "g": g, "k": "n1", "kind": kind, "gen": -1})
 								return
 							}
 							log(Ev{"e": "end", "g": g, "k": "n1", "kind": "ok", "gen": genOf(rr, z.typ)})
@@ -483,9 +506,20 @@ func TestCacheParked(t *testing.T) {
 							clock.Add(1)
 							log(Ev{"e": "advance"})
 						}
+						cancelB := refresh >= 1 && (round%2 == 0)
+						if cancelB { // the parked caller gives up while it waits; whatever it does then must not disturb the entry
+							cmu.Lock()
+							if cancelParked != nil {
+								cancelParked()
+							}
+							cmu.Unlock()
+						}
 						release <- struct{}{}
 						select {
 						case <-done:
+							if cancelB {
+								lookup(1) // still inside the lifetime of what the refresh stored: served from the cache
+							}
 						case <-time.After(2 * watchdogLimit()):
 							for _, e := range evs {
 								w.Write(e)
